@@ -6,7 +6,25 @@ Monitors (contracts attached to the real functions, so calls made from inside pr
   fftrange / make_xy_grid / forward_ft_unit   post: exact zero at n//2, constant spacing
 Law monitors driven by the workload: crop(pad(x)) == x, slices pass through the origin sample, centroid of a
 point source k samples from the origin is k*dx.
+
+Hardening pass (HARDENING.md classes A-D):
+  A  sections 6: the same argument OBJECTS (data arrays in C / F / transposed-view / strided / negative-stride layout,
+     out_shape as tuple / list / ndarray / numpy ints, fill as python / numpy scalars) are re-used across pad2d,
+     Wavefront.pad2d, crop_center, centroid and slices and the LATER call is judged against a pristine copy;
+     the pad2d / crop_center contracts judge against a snapshot of the input taken BEFORE the call.
+  B  section 7: histories on ONE object.  slices(), x/y/r/t reads and the mutators of Interferogram (crop, pad,
+     recenter, latcal, strip_latcal, mask, fill, remove_piston, filter, data re-binding, in-place pokes, copy, psd),
+     RichData (data re-binding, pokes, copy) and Wavefront (pad2d / crop in-place and out-of-place, copy) are
+     interleaved and EVERY slices() result is judged against the current data and the current coordinates: the
+     slice must pass through the one sample whose current coordinate is exactly 0, and after an operation that
+     (re)builds the grid (construction, pad, latcal, strip_latcal, recenter) that sample must be n//2.
+  C  the grid contracts judge at the round-off of the CONFIGURED precision (a float32 vector served under
+     precision 64 is a spacing violation); section 8 runs float32 warm-ups of the same (n, dx) first and then the
+     float64 calls; a share of the histories runs under precision 32 with float32 data, immediately before the
+     float64 run of the same history.
+  D  1xN / Nx1 / extreme aspect ratios, boolean and narrow-integer images.
 """
+import copy
 import itertools
 import math
 
@@ -16,16 +34,40 @@ from ..contracts import attach, detach_all
 from ..core import parity
 from ..util import precision
 
-RULE = ('per-axis (in,out) length cells enumerated exhaustively up to a bound and paired across the two axes; '
-        'grids/axes for every n up to a bound; point sources at every offset; a case is non-trivial when the array '
-        'has >= 2 samples or the shape changes; distinct = distinct descriptor (shapes, mode, fill, dtype, offsets)')
+RULE = ('per-axis (in,out) length cells enumerated exhaustively up to a bound and paired across the two axes (all pairs of '
+        'cells in both tiers); grids/axes for every n up to a bound; point sources at every offset; argument re-use over '
+        'memory layouts {C, F, transposed view, strided view, negative strides} x dtype x out_shape/fill containers; '
+        'histories = planned mutator sequences (ALL sequences up to a depth over the mutator alphabet of the object kind, '
+        'plus seeded random longer ones, deduplicated globally and partitioned over shards by index) interleaved with '
+        'observations by pattern {slices(two-sided) after every step, one-sided, default, random mix of slices/x/y/r/t reads}, '
+        'on base objects (off-centre valid region with/without the origin sample, centred circle, NaN-free non-square, '
+        'ragged, 1xN, Nx1, 3x40); a case is non-trivial when the array has >= 2 samples or the shape changes / the history '
+        'contains a mutator; distinct = distinct descriptor (shapes, mode, fill, dtype, layout, offsets, full op list)')
 ASSUMPTIONS = ['origin sample of an axis of length n is index n//2 (the convention the property states)',
                'for non-constant pad modes only the placement of the original block and agreement with numpy.pad of '
-               'that placement is required']
+               'that placement is required',
+               'histories: "the origin sample" of an object is the one sample whose current public x (resp. y) coordinate is '
+               'exactly 0; when the current coordinates have no such sample (a crop that cut the origin away) the slices '
+               'are not judged (excluded and counted); Interferogram.crop legitimately leaves the origin off n//2, every '
+               'operation that rebuilds or recentres the grid must put it back on n//2',
+               'the grid contracts judge spacing at the round-off of prysm.conf.config.precision at the time of the call',
+               'deepcopy of an object is a faithful, non-perturbing snapshot of what a user would read']
 REQUIRED = ['pad2d.placement', 'crop_center.placement', 'fftrange.origin', 'make_xy_grid.origin', 'forward_ft_unit.origin',
-            'roundtrip.crop(pad)', 'slices.through-origin', 'centroid.point-source']
+            'roundtrip.crop(pad)', 'slices.through-origin', 'centroid.point-source',
+            'reuse.pad2d.later-call', 'reuse.crop_center.later-call', 'reuse.centroid.layout', 'reuse.slices.layout',
+            'history.slices.through-current-origin', 'history.grid-origin-after-centring-op', 'history.wavefront.shadow',
+            'precision.32-then-64.grids']
 
 CTX = None
+
+
+def _richdata_class():
+    """RichData through a public module (the module that defines it has a private name)."""
+    try:
+        from prysm.interferogram import RichData
+    except ImportError:
+        from prysm._richdata import RichData
+    return RichData
 
 
 def cell_class(i, o):
@@ -39,17 +81,53 @@ def _norm_shape(out_shape, ndim):
     return tuple(int(s) for s in out_shape)
 
 
+SNAP_MAX = 4_000_000
+
+
+def ref_pad(array, oshape, mode, value):
+    """Reference placement: input sample i//2 goes to output sample o//2 on every axis."""
+    ishape = array.shape
+    offs = [o // 2 - i // 2 for o, i in zip(oshape, ishape)]
+    if mode == 'constant':
+        ref = np.zeros(oshape, dtype=array.dtype)
+        if value != 0:
+            ref += value
+        ref[tuple(slice(d, d + s) for d, s in zip(offs, ishape))] = array
+    else:
+        ref = np.pad(array, [(d, o - i - d) for d, o, i in zip(offs, oshape, ishape)], mode=mode)
+    return ref, offs
+
+
+def ref_crop(img, oshape):
+    offs = [i // 2 - o // 2 for o, i in zip(oshape, img.shape)]
+    return img[tuple(slice(d, d + o) for d, o in zip(offs, oshape))]
+
+
+def _snapshot(a):
+    """Copy of an input array taken BEFORE the real call (so that a routine that writes into its argument is judged
+    against what the caller passed, not against what it left behind)."""
+    if isinstance(a, np.ndarray) and a.size <= SNAP_MAX:
+        return a.copy()
+    return None
+
+
+def pre_pad2d(args, kwargs):
+    array = args[0] if args else kwargs.get('array')
+    return _snapshot(array)
+
+
 def post_pad2d(token, args, kwargs, result):
     names = ['array', 'Q', 'value', 'mode', 'out_shape']
     a = dict(zip(names, args))
     a.update(kwargs)
-    array = a['array']
+    passed = a['array']
+    array = token if token is not None else passed
     Q = a.get('Q', 2)
     value = a.get('value', 0)
     mode = a.get('mode', 'constant')
     out_shape = a.get('out_shape', None)
     if Q == 1 and out_shape is None:
-        CTX.require('pad2d.placement', result is array or np.array_equal(result, array, equal_nan=True),
+        CTX.require('pad2d.placement', result is passed or np.array_equal(result, array, equal_nan=True),
                     'C04/pad2d/Q1-not-identity', 'pad2d(Q=1) is not the identity', {'shape': array.shape})
         return
     if out_shape is None:
@@ -64,15 +142,8 @@ def post_pad2d(token, args, kwargs, result):
     if tuple(result.shape) != oshape:
         CTX.violation('C04/pad2d/shape', f'pad2d returned shape {result.shape}, expected {oshape}', desc)
         return
-    offs = [o // 2 - i // 2 for o, i in zip(oshape, ishape)]
     cls = ','.join(cell_class(i, o) for i, o in zip(ishape, oshape))
-    if mode == 'constant':
-        ref = np.zeros(oshape, dtype=array.dtype)
-        if value != 0:
-            ref += value
-        ref[tuple(slice(d, d + s) for d, s in zip(offs, ishape))] = array
-    else:
-        ref = np.pad(array, [(d, o - i - d) for d, o, i in zip(offs, oshape, ishape)], mode=mode)
+    ref, offs = ref_pad(array, oshape, mode, value)
     if not np.array_equal(result, ref, equal_nan=True):
         bad = [cell_class(i, o) for i, o in zip(ishape, oshape)]
         # which axes are misplaced?  find the block
@@ -83,8 +154,15 @@ def post_pad2d(token, args, kwargs, result):
                       f'pad2d does not put input sample i//2 at output sample o//2 (axis classes {cls}, mode={mode})', desc)
 
 
+def pre_crop_center(args, kwargs):
+    img = args[0] if args else kwargs.get('img')
+    return _snapshot(img)
+
+
 def post_crop_center(token, args, kwargs, result):
     img = args[0] if args else kwargs['img']
+    if token is not None:
+        img = token
     out_shape = args[1] if len(args) > 1 else kwargs['out_shape']
     oshape = _norm_shape(out_shape, img.ndim) if not isinstance(out_shape, (int, np.integer)) else (int(out_shape),) * 2
     ishape = img.shape[:len(oshape)]
@@ -92,12 +170,22 @@ def post_crop_center(token, args, kwargs, result):
         return  # growing crop is out of domain
     desc = {'fn': 'crop_center', 'in': ishape, 'out': oshape, 'dtype': str(img.dtype)}
     CTX.observe('crop_center.placement')
-    offs = [i // 2 - o // 2 for o, i in zip(oshape, ishape)]
-    ref = img[tuple(slice(d, d + o) for d, o in zip(offs, oshape))]
+    ref = ref_crop(img, oshape)
     if tuple(result.shape) != tuple(ref.shape) or not np.array_equal(result, ref, equal_nan=True):
         axes = sorted(set(cell_class(i, o) for i, o in zip(ishape, oshape)))
         CTX.violation(f'C04/crop_center/origin-misplaced/{"|".join(axes)}',
                       'crop_center does not put input sample i//2 at output sample o//2', desc)
+
+
+def _conf_eps(dtype):
+    """Round-off unit the grid contracts judge at: that of the precision prysm is CONFIGURED for at the time of the call
+    (a float32 vector handed out under precision 64, e.g. from a cache keyed without the precision, is not the grid of
+    the current configuration); never coarser than float32, never finer than float64."""
+    from prysm.conf import config
+    try:
+        return float(np.finfo(config.precision).eps)
+    except Exception:
+        return float(np.finfo(dtype).eps)
 
 
 def post_fftrange(token, args, kwargs, result):
@@ -130,7 +218,7 @@ def post_make_xy_grid(token, args, kwargs, result):
     if not ok:
         CTX.violation('C04/make_xy_grid/shape', 'make_xy_grid returned arrays of the wrong shape / not separable', desc)
         return
-    eps = np.finfo(xv.dtype).eps
+    eps = _conf_eps(xv.dtype)
     for name, v, n in (('x', xv, n1), ('y', yv, n0)):
         ref = (np.arange(n) - n // 2) * float(dx)
         if v[n // 2] != 0.0:
@@ -150,7 +238,7 @@ def post_forward_ft_unit(token, args, kwargs, result):
     if not shift:
         ref = np.fft.ifftshift(ref)
     z = n // 2 if shift else 0
-    eps = np.finfo(result.dtype).eps
+    eps = _conf_eps(result.dtype)
     if result.shape != (n,) or result[z] != 0.0:
         CTX.violation(f'C04/forward_ft_unit/no-exact-zero/{parity(n)}/shift={shift}', 'frequency axis has no exact zero at the origin index', desc)
     elif not np.allclose(result, ref, rtol=16 * eps, atol=0):
@@ -165,8 +253,8 @@ def install_monitors(ctx):
 
 def install():
     from prysm import fttools, coordinates
-    attach(fttools, 'pad2d', post=post_pad2d)
-    attach(fttools, 'crop_center', post=post_crop_center)
+    attach(fttools, 'pad2d', pre=pre_pad2d, post=post_pad2d)
+    attach(fttools, 'crop_center', pre=pre_crop_center, post=post_crop_center)
     attach(fttools, 'fftrange', post=post_fftrange)
     attach(coordinates, 'make_xy_grid', post=post_make_xy_grid)
     attach(fttools, 'forward_ft_unit', post=post_forward_ft_unit)
@@ -183,6 +271,739 @@ def marker_array(shape, dtype, rng):
     return a.astype(dtype)
 
 
+# ------------------------------------------------------------------------------------------ class A: re-use / layouts
+LAYOUTS = ['C', 'F', 'T', 'strided', 'negstride']
+
+
+def relayout(a, layout):
+    """The same values in another memory layout (always a fresh buffer, never the caller's)."""
+    a = np.array(a, order='C', copy=True)
+    if layout == 'C':
+        return a
+    if layout == 'F':
+        return np.asfortranarray(a)
+    if layout == 'T':                       # transposed view of a C-ordered array
+        return np.ascontiguousarray(a.T).T
+    if layout == 'strided':                 # non-contiguous in both axes
+        big = np.zeros((2 * a.shape[0] + 1, 3 * a.shape[1] + 2), dtype=a.dtype)
+        v = big[1::2, 2::3][:a.shape[0], :a.shape[1]]
+        v[...] = a
+        return v
+    if layout == 'negstride':
+        return np.ascontiguousarray(a[::-1, ::-1])[::-1, ::-1]
+    raise ValueError(layout)
+
+
+def shape_container(kind, shp):
+    if kind == 'list':
+        return [int(v) for v in shp]
+    if kind == 'ndarray':
+        return np.array(shp, dtype=np.int64)
+    if kind == 'np-ints':
+        return (np.int32(shp[0]), np.int64(shp[1]))
+    return tuple(int(v) for v in shp)
+
+
+def value_container(kind, v, dtype):
+    k = np.dtype(dtype).kind
+    if k in 'iub':                          # integer / boolean images: the fill must be castable to the image dtype
+        return (bool(v) if k == 'b' else int(v))
+    if kind == 'np64':
+        return np.float64(v)
+    if kind == 'np32':
+        return np.float32(v)
+    if kind == '0d':
+        return np.array(float(v))
+    return float(v)
+
+
+def image_array(shape, dtype, rng):
+    if np.dtype(dtype).kind == 'b':
+        a = rng.random(shape) > 0.5
+        a[shape[0] // 2, shape[1] // 2] = True
+        return a
+    if np.dtype(dtype).kind == 'u':
+        return (np.arange(1, shape[0] * shape[1] + 1).reshape(shape) % 251).astype(dtype)
+    return marker_array(shape, dtype, rng)
+
+
+def _same(a, b):
+    a, b = np.asarray(a), np.asarray(b)
+    return a.shape == b.shape and (np.array_equal(a, b, equal_nan=True) if a.dtype.kind in 'fc' else np.array_equal(a, b))
+
+
+def reuse_workload(ctx, rng):
+    from prysm import fttools, psf, propagation
+    RichData = _richdata_class()
+    ins0 = ctx.pick([1, 2, 5, 6], [1, 2, 3, 5, 6, 9, 12, 40])
+    ins1 = ctx.pick([1, 3, 4, 7], [1, 2, 3, 4, 7, 10, 33])
+    deltas = ctx.pick([0, 1, 2, 3], [0, 1, 2, 3, 6, 7, 20])
+    dts = ['float64', 'float32', 'complex128', 'int16', 'uint8', 'bool', 'int64']
+    conts = ['tuple', 'list', 'ndarray', 'np-ints']
+    vconts = ['py', 'np64', 'np32', '0d']
+    k = -1
+    for i0, i1, d0, d1, layout in itertools.product(ins0, ins1, deltas, deltas, LAYOUTS):
+        k += 1
+        if not ctx.mine(k):
+            continue
+        o0, o1 = i0 + d0, i1 + d1
+        dtype = dts[k % len(dts)]
+        cont = conts[(k // 5) % len(conts)]
+        vcont = vconts[(k // 3) % len(vconts)]
+        kind = np.dtype(dtype).kind
+        mode = 'edge' if k % 4 == 0 else 'constant'
+        if kind in 'fc':
+            fill = [0, 1.5, float('nan'), -2][(k // 2) % 4]
+        elif kind == 'b':
+            fill = [0, 1][(k // 2) % 2]
+        else:
+            fill = [0, 3][(k // 2) % 2]
+        if mode != 'constant':
+            fill = 0
+        desc = {'wl': 'reuse', 'in': (i0, i1), 'out': (o0, o1), 'layout': layout, 'dtype': dtype, 'out_shape_as': cont, 'fill': fill,
+                'fill_as': vcont, 'mode': mode, 'class': f'reuse:{layout}:{dtype}:{cont}:{cell_class(i0, o0)},{cell_class(i1, o1)}'}
+        ctx.case(desc, nontrivial=(i0 * i1 >= 2 or (o0, o1) != (i0, i1)))
+        a0 = image_array((i0, i1), dtype, rng)
+        a = relayout(a0, layout)
+        S = shape_container(cont, (o0, o1))
+        Sin = shape_container(cont, (i0, i1))
+        v = value_container(vcont, fill, dtype)
+        ref, _ = ref_pad(a0, (o0, o1), mode, fill if kind in 'fc' else v)
+        with ctx.guard('C04/pad2d', desc):
+            fttools.pad2d(a, out_shape=S, value=v, mode=mode)
+            p2 = fttools.pad2d(a, out_shape=S, value=v, mode=mode)          # the same argument objects, second call judged
+            ctx.observe('reuse.pad2d.later-call')
+            if not _same(p2, ref):
+                ctx.violation('C04/reuse/pad2d/second-call-with-the-same-arguments',
+                              'pad2d called twice with the same array / out_shape / value objects: the second result does not put '
+                              'the (original) input sample i//2 at output sample o//2', desc)
+            w = propagation.Wavefront(a, 0.5, 1.0)
+            w2 = w.pad2d(2, value=v, mode=mode, out_shape=S, inplace=False)  # other routine of the property, same objects
+            ctx.observe('reuse.pad2d.later-call')
+            if not (_same(w2.data, ref) and _same(w.data, a0)):
+                ctx.violation('C04/reuse/Wavefront.pad2d/after-pad2d-with-the-same-arguments',
+                              'Wavefront.pad2d(inplace=False) after pad2d with the same array / out_shape / value objects misplaces '
+                              'the data or changes the source wavefront', desc)
+        with ctx.guard('C04/crop_center', desc):
+            fttools.crop_center(p2, Sin)
+            c2 = fttools.crop_center(p2, Sin)
+            ctx.observe('reuse.crop_center.later-call')
+            if not _same(c2, a0):
+                ctx.violation('C04/reuse/crop_center/second-call-with-the-same-arguments',
+                              'crop_center(pad2d(x)) called twice with the same objects: the second result is not x', desc)
+            b0 = image_array((o0, o1), dtype, rng)
+            b = relayout(b0, layout)
+            fttools.crop_center(b, Sin)
+            c3 = fttools.crop_center(b, Sin)
+            wb = propagation.Wavefront(b, 0.5, 1.0)
+            wb.crop(Sin, inplace=True)
+            ctx.observe('reuse.crop_center.later-call')
+            rc = ref_crop(b0, (i0, i1))
+            if not (_same(c3, rc) and _same(wb.data, rc)):
+                ctx.violation(f'C04/reuse/crop_center/layout={layout}',
+                              'crop_center / Wavefront.crop of a non-C-contiguous array re-using the same out_shape object does not put input '
+                              'sample i//2 at output sample o//2', desc)
+        # centroid and slices on the same layouts / image dtypes / dx containers
+        if dtype == 'complex128':
+            continue
+        dxc = ['py', 'np32', 'np64', 'int'][(k // 7) % 4]
+        dxv = {'py': 0.37, 'np32': np.float32(0.37), 'np64': np.float64(12.5), 'int': 2}[dxc]
+        k0 = int(rng.integers(-(i0 // 2), i0 - i0 // 2))
+        k1 = int(rng.integers(-(i1 // 2), i1 - i1 // 2))
+        d0_ = np.zeros((i0, i1), dtype=dtype)
+        d0_[i0 // 2 + k0, i1 // 2 + k1] = 1
+        d = relayout(d0_, layout)
+        desc2 = dict(desc, wl='reuse-centroid', dx_as=dxc, k=(k0, k1), **{'class': f'reuse-centroid:{layout}:{dtype}:{dxc}:{parity(i0)}{parity(i1)}'})
+        ctx.case(desc2, nontrivial=i0 * i1 >= 2)
+        with ctx.guard('C04/centroid', desc2):
+            psf.centroid(d, dxv)
+            c = psf.centroid(d, dxv)
+            ctx.observe('reuse.centroid.layout')
+            rt = 1e-4 if dxc == 'np32' else 1e-12
+            fd = float(dxv)
+            bad = [parity(n) for n, got, kk in ((i0, c[0], k0), (i1, c[1], k1)) if not abs(float(got) - kk * fd) <= rt * fd * n]
+            if len(c) != 2 or bad or not _same(d, d0_):
+                ctx.violation(f'C04/reuse/centroid/point-source-offset/n={"|".join(sorted(set(bad)))}',
+                              'centroid (second call, same data / dx objects) of a point source k samples from index n//2 is not k*dx', desc2, got=c)
+        if dtype in ('float64', 'float32', 'int16'):
+            desc3 = dict(desc, wl='reuse-slices', dx_as=dxc, **{'class': f'reuse-slices:{layout}:{dtype}:{dxc}:{parity(i0)}{parity(i1)}'})
+            ctx.case(desc3, nontrivial=i0 * i1 >= 2)
+            with ctx.guard('C04/slices', desc3):
+                rd = RichData(a, dxv, None)
+                rd.slices()
+                for two in (True, False):
+                    sl = rd.slices(twosided=two)
+                    ctx.observe('reuse.slices.layout')
+                    fd = float(dxv)
+                    fx = (np.arange(i1) - i1 // 2) * fd
+                    fy = (np.arange(i0) - i0 // 2) * fd
+                    ok = _judge_slices_against(sl, a0, fx, fy, i0 // 2, i1 // 2, two, exact=False)
+                    if ok is not True:
+                        ctx.violation(f'C04/reuse/slices/{"two" if two else "one"}sided/{parity(i0)}{parity(i1)}',
+                                      f'slices of a RichData over a {layout}-layout array do not pass through the origin sample ({ok})', desc3)
+
+
+def _judge_slices_against(sl, data, xs, ys, jy, jx, two, exact=True, rtol=1e-14):
+    """True, or the name of the first failing component, for a Slices object against expected data / axes / origin indices."""
+    gx, vx = sl.x
+    gy, vy = sl.y
+    if two:
+        ex, evx, ey, evy = xs, data[jy, :], ys, data[:, jx]
+    else:
+        ex, evx, ey, evy = xs[jx:], data[jy, jx:], ys[jy:], data[jy:, jx]
+    if not (_same(vx, evx) and _same(vy, evy)):
+        return 'values'
+    if exact:
+        okc = _same(gx, ex) and _same(gy, ey)
+    else:
+        okc = (np.shape(gx) == np.shape(ex) and np.shape(gy) == np.shape(ey)
+               and np.allclose(gx, ex, rtol=rtol, atol=0) and np.allclose(gy, ey, rtol=rtol, atol=0))
+    return True if okc else 'abscissae'
+
+
+# ------------------------------------------------------------------------------------------ class B: histories on one object
+IFG_MUT = ['crop', 'recenter', 'latcal', 'strip_latcal', 'pad', 'mask', 'fill', 'remove_piston', 'set-data', 'poke', 'filter', 'copy', 'psd']
+RICH_MUT = ['set-data', 'poke', 'copy']
+WF_MUT = ['wpad-Q', 'wpad-shape', 'wcrop', 'copy', 'set-data']
+OBS = ['slices', 'slices2', 'slices1', 'read-x', 'read-y', 'read-r', 'read-t']
+CENTRING = {'construct', 'pad', 'latcal', 'strip_latcal', 'recenter'}
+
+H_SHAPE = {'offcentre': (13, 15), 'offcentre-no-origin': (12, 12), 'circ': (11, 11), 'full': (8, 11), 'ragged': (10, 9),
+           'line': (1, 9), 'col': (9, 1), 'wide': (3, 40)}
+H_BASES_IFG = list(H_SHAPE)
+H_BASES_RICH = ['full', 'circ', 'line', 'col', 'wide', 'sq-even']
+H_SHAPE['sq-even'] = (6, 6)
+WF_SHAPE = {'w56': (5, 6), 'w65': (6, 5), 'w44': (4, 4), 'w77': (7, 7), 'w18': (1, 8), 'w340': (3, 40)}
+
+
+def h_base(name):
+    n0, n1 = H_SHAPE[name]
+    i, j = np.indices((n0, n1))
+    z = 1.25 + i * n1 + j + 0.5 * np.sin(1.0 + i * 0.7 + j * 1.3)       # distinct, deterministic values
+    nan = float('nan')
+    if name == 'offcentre':            # valid rows 1..8, cols 4..13: contains the origin (6,7) but is not centred on it
+        m = np.zeros((n0, n1), dtype=bool)
+        m[1:9, 4:14] = True
+        z[~m] = nan
+    elif name == 'offcentre-no-origin':  # valid region does not contain the origin sample (6,6)
+        m = np.zeros((n0, n1), dtype=bool)
+        m[7:11, 1:5] = True
+        z[~m] = nan
+    elif name == 'circ':
+        z[np.hypot(i - n0 // 2, j - n1 // 2) > 5.2] = nan
+    elif name == 'ragged':
+        z[0, :] = nan
+        z[:, -2:] = nan
+        z[1, :4] = nan
+        z[n0 // 2, n1 // 2] = nan          # the origin sample itself is invalid
+    elif name == 'line':
+        z[0, :3] = nan
+    elif name == 'col':
+        z[6:, 0] = nan
+    elif name == 'wide':
+        z[:, :5] = nan
+        z[:, 31:] = nan
+    return z
+
+
+def draw_h_variant(op, vr):
+    if op == 'pad':
+        kind = ['samples', 'samples2', 'shape2', 'shape'][int(vr.integers(4))]
+        val = ['nan', '0', '1.5'][int(vr.integers(3))]
+        return f'pad:{kind}:{int(vr.integers(0, 4))},{int(vr.integers(1, 4))}:{val}'
+    if op == 'mask':
+        if vr.random() < 0.2:
+            return 'mask:origin'
+        return 'mask:rect:' + ','.join(str(int(v)) for v in vr.integers(0, 3, 4))
+    if op == 'latcal':
+        return 'latcal:' + ['2.0', '0.1', '3.3'][int(vr.integers(3))]
+    if op == 'fill':
+        return 'fill:' + ['0', '2.5'][int(vr.integers(2))]
+    if op == 'filter':
+        return 'filter:' + ['lp', 'hp'][int(vr.integers(2))] + ':' + ['0.3', '0.6'][int(vr.integers(2))]
+    form = ['ip', 'oop', 'oop>'][int(vr.integers(3))]
+    if op == 'wpad-Q':
+        return 'wpad:Q=' + ['1', '1.5', '2', '2.5', '3', '1.25'][int(vr.integers(6))] + ':' + form
+    if op == 'wpad-shape':
+        val = ['0', '1.5', 'nan'][int(vr.integers(3))]
+        mode = 'edge' if vr.random() < 0.25 else 'constant'
+        return f'wpad:shape={int(vr.integers(0, 5))},{int(vr.integers(0, 5))}:{val if mode == "constant" else "0"}:{mode}:{form}'
+    if op == 'wcrop':
+        return f'wcrop:{int(vr.integers(0, 4))},{int(vr.integers(0, 4))}:{form}'
+    return op
+
+
+def h_class(opv):
+    return opv.split(':', 1)[0]
+
+
+def _prec_eps(prec):
+    return float(np.finfo(np.float32 if prec == 32 else np.float64).eps)
+
+
+class ObjHistory:
+    """One history on one Interferogram / RichData object: every slices() is judged against the CURRENT data and coordinates."""
+
+    def __init__(self, ctx, desc):
+        from prysm.interferogram import Interferogram
+        RichData = _richdata_class()
+        self.ctx, self.desc = ctx, desc
+        self.kind = desc['kind']
+        z = h_base(desc['base']).astype(desc.get('dtype', 'float64'))
+        z = relayout(z, desc.get('layout', 'C'))
+        self.obj = Interferogram(z, dx=desc['dx']) if self.kind == 'ifg' else RichData(z, desc['dx'], None)
+        self.lastmut = 'construct'
+        self.lastcoord = 'construct'   # last operation that changed the coordinates (crop that cut, pad, recenter, latcal, strip_latcal)
+        self.centred = True          # model: True = the grid was (re)built / recentred and not cropped since; None = unknown
+        self.executed = []
+        self.dead = False
+
+    # -- monitors ------------------------------------------------------------------------------------------
+    def grid_origin(self, opc):
+        """After an operation that builds / rebuilds / recentres the grid the exact zero of x and y is sample n//2."""
+        ctx, o, desc = self.ctx, self.obj, self.desc
+        c = copy.deepcopy(o)                        # the user's view, without populating the live object's caches
+        n0, n1 = o.data.shape
+        ctx.observe('history.grid-origin-after-centring-op')
+        x, y = c.x, c.y
+        ok = np.shape(x) == (n0, n1) and np.shape(y) == (n0, n1)
+        if ok:
+            row, col = x[n0 // 2, :], y[:, n1 // 2]
+            ok = (row[n1 // 2] == 0 and (row[:n1 // 2] < 0).all() and (row[n1 // 2 + 1:] > 0).all()
+                  and col[n0 // 2] == 0 and (col[:n0 // 2] < 0).all() and (col[n0 // 2 + 1:] > 0).all())
+        if not ok:
+            ctx.violation(f'C04/history/grid-origin/{self.kind}/after:{opc}',
+                          f'after {opc} the coordinate grids of the object do not have their exact zero at sample (n0//2, n1//2)', desc,
+                          executed=self.executed)
+            self.centred = None
+
+    def judge(self, sl, obj, two, who):
+        """`sl` = obj.slices(...) just returned.  Judge it against obj's current data and public coordinates."""
+        ctx, desc = self.ctx, self.desc
+        data = obj.data
+        x, y = obj.x, obj.y            # slices() has just read them, so this populates nothing new
+        if np.ndim(x) != 2 or np.shape(x) != data.shape or np.shape(y) != data.shape:
+            ctx.skip('history slices: coordinates not of the data shape (that is C12), slices not judged')
+            return
+        xs, ys = x[0, :], y[:, 0]
+        if not ((x == xs[None, :]) | (x != x)).all() or not ((y == ys[:, None]) | (y != y)).all():
+            ctx.skip('history slices: coordinates not separable, slices not judged')
+            return
+        jx, jy = np.flatnonzero(xs == 0), np.flatnonzero(ys == 0)
+        if jx.size != 1 or jy.size != 1:
+            ctx.skip('history slices: the current coordinates have no unique zero sample (origin cropped away), slices not judged')
+            return
+        jx, jy = int(jx[0]), int(jy[0])
+        n0, n1 = data.shape
+        ctx.observe('history.slices.through-current-origin')
+        side = 'two' if two else 'one'
+        if self.centred is True and who == self.kind and (jx, jy) != (n1 // 2, n0 // 2):
+            ctx.violation(f'C04/history/origin-moved/{who}/after:{self.lastmut}',
+                          f'no crop since the grid was last built, yet the zero of the coordinates sits at sample ({jy},{jx}) '
+                          f'instead of ({n0 // 2},{n1 // 2})', desc, executed=self.executed)
+            return
+        if who != self.kind and (jx, jy) != (n1 // 2, n0 // 2):
+            ctx.violation(f'C04/history/origin-moved/{who}/after:{self.lastmut}',
+                          f'the frequency axes of the PSD have their zero at sample ({jy},{jx}) instead of ({n0 // 2},{n1 // 2})', desc,
+                          executed=self.executed)
+            return
+        res = _judge_slices_against(sl, data, xs, ys, jy, jx, two, exact=True)
+        if res is not True:
+            # attribute the failure: values that are another row / column of the CURRENT data mean a stale centre (the culprit is the
+            # last operation that changed the coordinates); anything else is attributed to the last mutator
+            culprit = self.lastmut
+            if res == 'values':
+                vx, vy = np.asarray(sl.x[1]), np.asarray(sl.y[1])
+                rows = [r for r in range(n0) if r != jy and any(_same(vx, data[r, c:]) for c in ((0,) if two else range(n1)))]
+                cols = [c for c in range(n1) if c != jx and any(_same(vy, data[r:, c]) for r in ((0,) if two else range(n0)))]
+                if rows or cols:
+                    culprit, res = self.lastcoord, 'through-another-sample'
+            ctx.violation(f'C04/history/slices/{who}/after:{culprit}/{side}sided-{res}',
+                          f'after {culprit} (history on one object) slices() does not pass through the sample whose current '
+                          f'coordinate is 0, sample ({jy},{jx}) of the {n0}x{n1} array: {res} differ', desc, executed=self.executed,
+                          last_mutator=self.lastmut)
+
+    # -- one step ------------------------------------------------------------------------------------------
+    def step(self, opv, pos):
+        ctx, o, desc = self.ctx, self.obj, self.desc
+        opc = h_class(opv)
+        d = o.data
+        n0, n1 = d.shape
+        fin = np.isfinite(d)
+        nvalid = int(fin.sum())
+        # ---- domain
+        if opc in ('crop', 'remove_piston', 'mask') and nvalid < 1:
+            ctx.skip(f'history {opc}: no valid sample')
+            return
+        if opc in ('filter', 'psd') and (nvalid != d.size or min(n0, n1) < 3):
+            ctx.skip(f'history {opc}: data has NaNs or fewer than 3 rows/columns (out of domain)')
+            return
+        marg = None
+        if opc == 'mask':
+            m = np.ones((n0, n1), dtype=bool)
+            if opv == 'mask:origin':
+                m[n0 // 2, n1 // 2] = False
+            else:
+                a, b, c, e = (int(v) for v in opv.split(':')[2].split(','))
+                if a + b < n0:
+                    m[:a, :] = False
+                    if b:
+                        m[n0 - b:, :] = False
+                if c + e < n1:
+                    m[:, :c] = False
+                    if e:
+                        m[:, n1 - e:] = False
+            if int((m & fin).sum()) < 1:
+                ctx.skip('history mask: would leave no valid sample')
+                return
+            marg = m
+        ctx.event(f'{self.kind}:{self.lastmut}>{opc}')
+        try:
+            if opc in ('slices', 'slices2', 'slices1'):
+                two = {'slices': None, 'slices2': True, 'slices1': False}[opc]
+                sl = o.slices() if two is None else o.slices(twosided=two)
+                eff = bool(sl.twosided) if two is None else two      # the default sidedness is whatever the returned object says it is
+                self.executed.append(opv)
+                self.judge(sl, o, bool(eff), self.kind)
+                if bool(sl.twosided) != bool(eff):
+                    ctx.violation(f'C04/history/slices/{self.kind}/after:{self.lastmut}/sidedness',
+                                  'slices(twosided=...) returned an object of the other sidedness', desc, executed=self.executed)
+                return
+            if opc.startswith('read-'):
+                getattr(o, opc[-1])
+                self.executed.append(opv)
+                return
+            if opc == 'crop':
+                o.crop()
+                if o.data.shape != (n0, n1):
+                    self.centred = None
+                    self.lastcoord = 'crop'
+            elif opc == 'pad':
+                _, kind, ks, val = opv.split(':')
+                k0, k1 = (int(v) for v in ks.split(','))
+                value = float('nan') if val == 'nan' else float(val)
+                if kind == 'samples':
+                    o.pad(value, samples=k1)
+                elif kind == 'samples2':
+                    o.pad(value, samples=(k0, k1))
+                elif kind == 'shape2':
+                    o.pad(value, shape=(n0 + k1, n1 + k0))
+                else:
+                    o.pad(value, shape=max(n0, n1) + k1)
+            elif opc == 'mask':
+                o.mask(marg)
+            elif opc == 'fill':
+                o.fill(float(opv.split(':')[1]))
+            elif opc == 'latcal':
+                o.latcal(float(opv.split(':')[1]))
+            elif opc == 'filter':
+                _, typ, frac = opv.split(':')
+                o.filter(float(frac) / (2 * float(o.dx)), typ)
+            elif opc == 'set-data':
+                o.data = o.data * 1 + 1          # a new array of the same shape bound to the public attribute
+            elif opc == 'poke':
+                o.data[n0 // 2, :] += 0.5        # in-place change of the row through n//2
+                o.data[:, n1 // 2] -= 0.25
+            elif opc == 'copy':
+                self.obj = o = o.copy()
+            elif opc == 'psd':
+                p = o.psd()
+                self.executed.append(opv)
+                for two in (None, True):
+                    sl = p.slices() if two is None else p.slices(twosided=True)
+                    self.judge(sl, p, bool(sl.twosided), 'psd-of-ifg')
+                    if two is True and not sl.twosided:
+                        ctx.violation(f'C04/history/slices/psd-of-ifg/after:{self.lastmut}/sidedness',
+                                      'slices(twosided=True) returned a one-sided object', desc, executed=self.executed)
+                return
+            else:
+                getattr(o, opc)()                # recenter, strip_latcal, remove_piston
+        except Exception as e:
+            import traceback
+            tb = traceback.extract_tb(e.__traceback__)
+            where = [f'{f.filename.split("/prysm/")[-1]}:{f.lineno}:{f.name}' for f in tb if '/prysm/' in f.filename][-3:]
+            ctx.violation(f'C04/history/{self.kind}/{opc}/raises:{type(e).__name__}', f'{opc} in a history on one object raises {type(e).__name__}: {str(e)[:160]}',
+                          desc, step=pos, executed=self.executed, where=where)
+            self.dead = True
+            return
+        self.executed.append(opv)
+        self.lastmut = opc
+        if self.obj.data.size == 0:
+            ctx.skip('history: an operation left an array without samples (that is C12), history ended')
+            self.dead = True
+            return
+        if opc in CENTRING:
+            self.centred = True
+            self.lastcoord = opc
+            self.grid_origin(opc)
+
+    def run(self):
+        from ..util import precision
+        with precision(self.desc.get('prec', 64)):
+            if self.kind == 'ifg':
+                self.grid_origin('construct')
+            for pos, opv in enumerate(self.desc['ops']):
+                if self.dead:
+                    break
+                self.step(opv, pos)
+
+
+class WfHistory:
+    """History on Wavefront objects: pad2d / crop in-place and out-of-place, every object ever produced is tracked with an exact
+    shadow array (own placement rule) and re-verified after every step; slices of .intensity/.real/.imag/.phase are judged."""
+
+    def __init__(self, ctx, desc):
+        from prysm.propagation import Wavefront
+        self.ctx, self.desc = ctx, desc
+        n0, n1 = WF_SHAPE[desc['base']]
+        a0 = marker_array((n0, n1), desc.get('dtype', 'complex128'), None)
+        self.objs = [[Wavefront(relayout(a0, desc.get('layout', 'C')), 0.55, desc['dx']), a0.copy()]]
+        self.cur = 0
+        self.executed = []
+        self.dead = False
+
+    def verify(self, opc, form):
+        ctx = self.ctx
+        for w, sh in self.objs:
+            ctx.observe('history.wavefront.shadow')
+            if not _same(w.data, sh):
+                ctx.violation(f'C04/history/wavefront/data-misplaced/after:{opc}:{form}',
+                              f'after {opc} ({form}) a tracked Wavefront no longer holds its data at the placement '
+                              'sample i//2 -> sample o//2 of every pad / crop it went through', self.desc, executed=self.executed)
+                self.dead = True
+                return
+
+    def step(self, opv, pos):
+        ctx, desc = self.ctx, self.desc
+        w, sh = self.objs[self.cur]
+        opc = h_class(opv)
+        s0, s1 = sh.shape
+        form = opv.rsplit(':', 1)[-1] if opc in ('wpad', 'wcrop') else '-'
+        ctx.event(f'wf:{opc}:{form}')
+        try:
+            if opc == 'wslices':
+                _, part, two = opv.split(':')
+                two = two == 'two'
+                rd = getattr(w, part)
+                sl = rd.slices(twosided=two)
+                self.executed.append(opv)
+                fn = {'intensity': lambda v: abs(v) ** 2, 'real': np.real, 'imag': np.imag, 'phase': np.angle}[part]
+                dx = float(desc['dx'])
+                xs, ys = (np.arange(s1) - s1 // 2) * dx, (np.arange(s0) - s0 // 2) * dx
+                ctx.observe('history.slices.through-current-origin')
+                res = _judge_slices_against(sl, fn(sh), xs, ys, s0 // 2, s1 // 2, two, exact=False, rtol=8 * _prec_eps(desc.get('prec', 64)))
+                if res is not True:
+                    ctx.violation(f'C04/history/slices/wf.{part}/{"two" if two else "one"}sided-{res}',
+                                  f'slices of Wavefront.{part} in a pad / crop history do not pass through sample (n0//2, n1//2): {res} differ',
+                                  desc, executed=self.executed)
+                return
+            if opc == 'wpad':
+                parts = opv.split(':')
+                if parts[1].startswith('Q='):
+                    Q = float(parts[1][2:])
+                    Q = int(Q) if Q == int(Q) else Q
+                    oshape = (math.ceil(s0 * Q), math.ceil(s1 * Q))
+                    new = sh if Q == 1 else ref_pad(sh, oshape, 'constant', 0)[0]
+                    r = w.pad2d(Q, inplace=(form == 'ip'))
+                else:
+                    d0, d1 = (int(v) for v in parts[1][6:].split(','))
+                    value = float('nan') if parts[2] == 'nan' else float(parts[2])
+                    mode = parts[3]
+                    oshape = (s0 + d0, s1 + d1)
+                    new = ref_pad(sh, oshape, mode, value)[0]
+                    r = w.pad2d(2, value=value, mode=mode, out_shape=oshape, inplace=(form == 'ip'))
+            elif opc == 'wcrop':
+                d0, d1 = (int(v) for v in opv.split(':')[1].split(','))
+                oshape = (max(1, s0 - d0), max(1, s1 - d1))
+                new = ref_crop(sh, oshape).copy()
+                r = w.crop(oshape, inplace=(form == 'ip'))
+            elif opc == 'copy':
+                self.objs.append([w.copy(), sh.copy()])
+                self.cur = len(self.objs) - 1
+                self.executed.append(opv)
+                self.verify(opc, form)
+                return
+            elif opc == 'set-data':
+                w.data = w.data * 1 + 1
+                self.objs[self.cur][1] = sh * 1 + 1
+                self.executed.append(opv)
+                self.verify(opc, form)
+                return
+            else:
+                raise ValueError(opv)
+        except Exception as e:
+            import traceback
+            tb = traceback.extract_tb(e.__traceback__)
+            where = [f'{f.filename.split("/prysm/")[-1]}:{f.lineno}:{f.name}' for f in tb if '/prysm/' in f.filename][-3:]
+            if not where:
+                raise
+            ctx.violation(f'C04/history/wavefront/{opc}/raises:{type(e).__name__}', f'{opc} in a Wavefront history raises {type(e).__name__}: {str(e)[:160]}',
+                          desc, step=pos, executed=self.executed, where=where)
+            self.dead = True
+            return
+        self.executed.append(opv)
+        if form == 'ip':
+            if r is not w:
+                ctx.violation(f'C04/history/wavefront/{opc}/inplace-returns-other-object', f'{opc}(inplace=True) did not return self', desc)
+            self.objs[self.cur][1] = new
+        else:
+            self.objs.append([r, new])
+            if form.endswith('>'):
+                self.cur = len(self.objs) - 1
+        self.verify(opc, form)
+
+    def run(self):
+        from ..util import precision
+        with precision(self.desc.get('prec', 64)):
+            for pos, opv in enumerate(self.desc['ops']):
+                if self.dead:
+                    break
+                self.step(opv, pos)
+
+
+def run_history(ctx, desc):
+    try:
+        (WfHistory if desc['kind'] == 'wf' else ObjHistory)(ctx, desc).run()
+    except Exception as e:      # the MONITOR failed on an object state it cannot handle (never a verdict): counted, visible in the evidence
+        ctx.skip(f'monitor aborted a history ({type(e).__name__}) - rest of that history not monitored')
+
+
+def plan_histories(ctx, kind):
+    """Global (shard-independent) list of mutator-class sequences: exhaustive to a depth, then seeded random, deduplicated."""
+    muts = {'ifg': IFG_MUT, 'rich': RICH_MUT, 'wf': WF_MUT}[kind]
+    depth = {'ifg': ctx.pick(2, 3), 'rich': ctx.pick(2, 4), 'wf': ctx.pick(3, 4)}[kind]
+    seqs = [()]
+    for L in range(1, depth + 1):
+        seqs.extend(itertools.product(range(len(muts)), repeat=L))
+    nexh = len(seqs)
+    seen = set(seqs)
+    rng = np.random.default_rng([ctx.seed, 4, sum(map(ord, kind))])
+    nrand = {'ifg': ctx.pick(500, 140000), 'rich': ctx.pick(40, 4000), 'wf': ctx.pick(200, 24000)}[kind]
+    lo, hi = depth + 1, ctx.pick(7, 14)
+    tries = 0
+    while len(seqs) < nexh + nrand and tries < 20 * nrand:
+        tries += 1
+        sq = tuple(int(v) for v in rng.integers(0, len(muts), int(rng.integers(lo, hi + 1))))
+        if sq not in seen:
+            seen.add(sq)
+            seqs.append(sq)
+    return muts, seqs, nexh, depth
+
+
+def build_ops(kind, mutv, pattern, vr):
+    ops = []
+
+    def obs(last=False):
+        if kind == 'wf':
+            if pattern == 'end' and not last:
+                return
+            for _ in range(1 if pattern != 'all2' else 2):
+                ops.append(f'wslices:{["intensity", "real", "imag", "phase"][int(vr.integers(4))]}:{["two", "one"][int(vr.integers(2))]}')
+            return
+        if pattern in ('slices', 'slices2', 'slices1'):
+            ops.append(pattern)
+        elif pattern == 'mix':
+            for _ in range(int(vr.integers(0, 3))):
+                ops.append(OBS[int(vr.integers(len(OBS)))])
+        elif pattern == 'sparse':
+            if vr.random() < 0.4:
+                ops.append(OBS[int(vr.integers(3))])
+        if last and not (ops and ops[-1].startswith('slices')):
+            ops.append(OBS[int(vr.integers(3))])
+
+    obs()
+    for i, m in enumerate(mutv):
+        ops.append(m)
+        obs(last=(i == len(mutv) - 1))
+    if not mutv and not (ops and ops[-1].startswith(('slices', 'wslices'))):
+        obs(last=True)
+    return ops
+
+
+def history_workload(ctx):
+    dxs = [1.0, 0.37, 12.5]
+    hcount = 0
+    for kind in ('ifg', 'rich', 'wf'):
+        muts, seqs, nexh, depth = plan_histories(ctx, kind)
+        bases = {'ifg': H_BASES_IFG, 'rich': H_BASES_RICH, 'wf': list(WF_SHAPE)}[kind]
+        patterns = ['all', 'end', 'all2'] if kind == 'wf' else ['slices2', 'slices1', 'slices', 'mix', 'sparse']
+        nplanned = 0
+        for j, sq in enumerate(seqs):
+            # the shortest histories (<= 2 mutators) all run on shard 0, first => near-minimal witnesses; the others are
+            # spread over the remaining shards (quick) / all shards (thorough)
+            if len(sq) <= 2:
+                take = ctx.shard == 0
+            elif ctx.quick and ctx.nshards > 1:
+                take = j % (ctx.nshards - 1) + 1 == ctx.shard
+            else:
+                take = ctx.mine(j)
+            if not take:
+                continue
+            nplanned += 1
+            if j < nexh:
+                combos = [(b, p) for b in bases for p in patterns]
+            else:
+                combos = [(bases[(j + q) % len(bases)], patterns[(j + q) % len(patterns)]) for q in range(ctx.pick(2, 3))]
+            for q, (b, pat) in enumerate(combos):
+                hcount += 1
+                dx = dxs[(j + q) % 3]
+                vr = np.random.default_rng([ctx.seed, j, q, sum(map(ord, kind + b + pat))])
+                mutv = [draw_h_variant(muts[i], vr) for i in sq]
+                ops = build_ops(kind, mutv, pat, vr)
+                layout = (['C', 'C', 'F', 'T', 'strided'] if kind != 'rich' else LAYOUTS)[hcount % 5]
+                # class C: precision / dtype variants; the precision-32 run of a history comes immediately BEFORE its float64 run
+                v = hcount % 6
+                runs = {0: [(32, 'f32'), (64, 'f64')], 1: [(64, 'f32')], 2: [(32, 'f64'), (64, 'f64')]}.get(v, [(64, 'f64')])
+                for prec, dt in runs:
+                    if kind == 'wf':
+                        dtype = 'complex64' if dt == 'f32' else 'complex128'
+                    else:
+                        dtype = 'float32' if dt == 'f32' else 'float64'
+                    desc = {'wl': 'history', 'kind': kind, 'base': b, 'dx': dx, 'prec': prec, 'dtype': dtype, 'layout': layout, 'pattern': pat,
+                            'ops': ops, 'class': f'history:{kind}:{b}|len={len(sq)}|{pat}|p{prec}{dt}'}
+                    ctx.case(desc, nontrivial=len(sq) > 0)
+                    run_history(ctx, desc)
+        ctx.event(f'histories.{kind}.distinct-mutator-class-sequences', nplanned)
+        ctx.note(f'histories.{kind}', f'all {nexh} mutator-class sequences of length <= {depth} over {muts} on every base object and observation '
+                 f'pattern, plus {len(seqs) - nexh} distinct random sequences of length {depth + 1}..{ctx.pick(7, 14)}')
+
+
+# ------------------------------------------------------------------------------------------ class C: 32 -> 64 switch on the grids
+def precision_switch_workload(ctx, rng):
+    from prysm import fttools, coordinates
+    RichData = _richdata_class()
+    from prysm.conf import config
+    NP = ctx.pick(40, 900)
+    for n in range(1, NP + 1):
+        if not ctx.mine(n):
+            continue
+        n2 = int(rng.integers(1, min(NP, 120) + 1))
+        for dx in (0.37, 1 / 3, [12.5, 1.0, 1e-3, 977.1][n % 4]):
+            desc = {'wl': 'precision-switch', 'n': n, 'n2': n2, 'dx': dx, 'class': f'prec32->64:{parity(n)}{parity(n2)}'}
+            ctx.case(desc)
+            a32 = marker_array((n, n2), 'float32', rng)
+            with ctx.guard('C04/grids', desc):
+                for prec in (32, 64, 32, 64):        # float32 warm-up of the same arguments, then the float64 calls are judged at eps64
+                    with precision(prec):
+                        ctx.observe('precision.32-then-64.grids')
+                        fttools.fftrange(n, dtype=config.precision)
+                        coordinates.make_xy_grid((n, n2), dx=dx)
+                        coordinates.make_xy_grid((n2, n), dx=dx, grid=False)
+                        coordinates.make_xy_grid(min(n, 60), diameter=2.0)
+                        fttools.forward_ft_unit(dx, n)
+                        fttools.forward_ft_unit(dx, n, shift=False)
+                        # a container builds its grid lazily under the current configuration; slices judged at its round-off
+                        for arr in (a32, a32.astype('float64')):
+                            rd = RichData(arr, dx, None)
+                            for two in (True, False):
+                                sl = rd.slices(twosided=two)
+                                fx = (np.arange(n2) - n2 // 2) * dx
+                                fy = (np.arange(n) - n // 2) * dx
+                                res = _judge_slices_against(sl, arr, fx, fy, n // 2, n2 // 2, two, exact=False, rtol=8 * _prec_eps(prec))
+                                ctx.require('slices.through-origin', res is True, f'C04/slices/{"two" if two else "one"}sided/{parity(n)}{parity(n2)}',
+                                            f'slices do not pass through the origin sample (precision {prec}, data {arr.dtype}): {res}', desc)
+
+
 def run(ctx):
     global CTX
     CTX = ctx
@@ -195,7 +1016,7 @@ def run(ctx):
 
 def _run(ctx):
     from prysm import fttools, coordinates, psf, propagation
-    from prysm._richdata import RichData
+    RichData = _richdata_class()
     from prysm.conf import config
     rng = ctx.rng('c04')
 
@@ -205,22 +1026,8 @@ def _run(ctx):
     modes = ['constant', 'edge', 'reflect', 'symmetric', 'wrap']
     fills = [0, 1, -3.5, float('nan')]
     dtypes = ['float64', 'float32', 'complex128', 'int64']
-    if ctx.quick:
-        pairs = itertools.product(cells, cells)
-        full = True
-    else:
-        # every cell on axis 0 paired with partners covering all four parity classes + random ones
-        by_cls = {}
-        for c in cells:
-            by_cls.setdefault(cell_class(*c), []).append(c)
-        def gen():
-            for c0 in cells:
-                for cl, lst in sorted(by_cls.items()):
-                    for _ in range(3):
-                        yield c0, lst[int(rng.integers(len(lst)))]
-                    yield lst[int(rng.integers(len(lst)))], c0
-        pairs = gen()
-        full = False
+    pairs = itertools.product(cells, cells)
+    full = True
     k = -1
     for (i0, o0), (i1, o1) in pairs:
         k += 1
@@ -258,22 +1065,35 @@ def _run(ctx):
             if i0 == i1:
                 fttools.crop_center(b, int(i0)) if o0 >= i0 and o1 >= i0 else None
     # a few large, random shapes (sampled, not enumerated)
-    for _ in range(ctx.share(ctx.pick(40, 600))):
-        i0, i1 = (int(v) for v in rng.integers(1, ctx.pick(200, 1200), 2))
-        o0, o1 = i0 + int(rng.integers(0, 300)), i1 + int(rng.integers(0, 300))
-        desc = {'wl': 'pad-crop-large', 'in': (i0, i1), 'out': (o0, o1), 'class': f'padL:{cell_class(i0, o0)},{cell_class(i1, o1)}'}
+    for q in range(ctx.share(ctx.pick(60, 3000))):
+        big = ctx.pick(200, 1500)
+        aspect = ['any', 'any', '1xN', 'Nx1', 'thin', 'tall'][q % 6]
+        i0, i1 = (int(v) for v in rng.integers(1, big, 2))
+        if aspect == '1xN':
+            i0, i1 = 1, int(rng.integers(2, 4 * big))
+        elif aspect == 'Nx1':
+            i0, i1 = int(rng.integers(2, 4 * big)), 1
+        elif aspect == 'thin':
+            i0, i1 = int(rng.integers(2, 5)), int(rng.integers(big, 4 * big))
+        elif aspect == 'tall':
+            i0, i1 = int(rng.integers(big, 4 * big)), int(rng.integers(2, 5))
+        o0 = i0 + int(rng.integers(0, 300 if i0 > 4 else 4))
+        o1 = i1 + int(rng.integers(0, 300 if i1 > 4 else 4))
+        fill = [0, 0, 2.5, float('nan')][q % 4]
+        desc = {'wl': 'pad-crop-large', 'in': (i0, i1), 'out': (o0, o1), 'aspect': aspect, 'fill': fill,
+                'class': f'padL:{aspect}:{cell_class(i0, o0)},{cell_class(i1, o1)}'}
         ctx.case(desc)
         a = rng.standard_normal((i0, i1))
         with ctx.guard('C04/pad2d', desc):
-            pz = fttools.pad2d(a, out_shape=(o0, o1))
+            pz = fttools.pad2d(a, out_shape=(o0, o1), value=fill)
             ctx.equal('roundtrip.crop(pad)', fttools.crop_center(pz, (i0, i1)), a, 'C04/roundtrip/crop(pad(x))!=x', 'crop_center(pad2d(x)) != x', desc)
     if full:
         ctx.note('pad_crop_cells', f'all per-axis (in,out) cells with 1<=in<=out<={N}, all pairs of cells (axis0 x axis1)')
 
     # --- 2. Q-form of pad2d, Wavefront.pad2d / crop, FFT route with non-integer Q ------------------
-    nQ = ctx.share(ctx.pick(300, 6000))
+    nQ = ctx.share(ctx.pick(300, 20000))
     for _ in range(nQ):
-        i0, i1 = (int(v) for v in rng.integers(1, ctx.pick(16, 48), 2))
+        i0, i1 = (int(v) for v in rng.integers(1, ctx.pick(16, 64), 2))
         Q = [1, 2, 3, 1.5, 2.5, 1.25, float(rng.uniform(1, 4))][int(rng.integers(7))]
         o0, o1 = math.ceil(i0 * Q), math.ceil(i1 * Q)
         desc = {'wl': 'wavefront', 'in': (i0, i1), 'Q': Q, 'class': f'wfQ:{cell_class(i0, o0)},{cell_class(i1, o1)}'}
@@ -294,14 +1114,14 @@ def _run(ctx):
                 propagation.unfocus(a, Q)
 
     # --- 3. grids and axes ---------------------------------------------------------------------------
-    NG = ctx.pick(64, 512)
+    NG = ctx.pick(64, 4000)
     k = -1
     for n in range(1, NG + 1):
         k += 1
         if not ctx.mine(k):
             continue
         dx = [1.0, 0.37, 12.5, 1 / 3, float(rng.uniform(1e-3, 1e3))][n % 5]
-        n2 = int(rng.integers(1, NG + 1))
+        n2 = int(rng.integers(1, min(NG, 300) + 1))
         desc = {'wl': 'grids', 'n': n, 'n2': n2, 'dx': dx, 'class': f'grid:{parity(n)}{parity(n2)}'}
         ctx.case(desc)
         with ctx.guard('C04/grids', desc):
@@ -320,7 +1140,7 @@ def _run(ctx):
                 fttools.forward_ft_unit(0.37, n)
 
     # --- 4. slices through the origin sample ---------------------------------------------------------
-    NS = ctx.pick(14, 40)
+    NS = ctx.pick(14, 64)
     k = -1
     for n0 in range(1, NS + 1):
         for n1 in range(1, NS + 1):
@@ -349,7 +1169,7 @@ def _run(ctx):
                                 'slices do not pass through the origin sample (n0//2, n1//2)', desc)
 
     # --- 5. centroid of a point source ---------------------------------------------------------------
-    NC = ctx.pick(13, 33)
+    NC = ctx.pick(13, 44)
     k = -1
     for n0 in range(1, NC + 1):
         for n1 in range(1, NC + 1):
@@ -387,9 +1207,27 @@ def _run(ctx):
                         bad.append(parity(n1))
                     ctx.require('centroid.point-source', not bad, f'C04/centroid/point-source-offset/n={"|".join(sorted(set(bad)))}',
                                 'centroid of a two-sample blob is not the weighted mean offset from index n//2', desc, got=c)
+    # --- 6. argument re-use, memory layouts, containers, image dtypes (class A / D) -------------------
+    reuse_workload(ctx, rng)
+    # --- 7. histories on one object (class B), a share of them under precision 32 first (class C) -----
+    history_workload(ctx)
+    # --- 8. precision 32 -> 64 switch for the grid routines (class C) ---------------------------------
+    precision_switch_workload(ctx, rng)
     if ctx.quick:
         ctx.exhaustive = True
 
 
 def replay(ctx, rec):
-    run(ctx)
+    global CTX
+    ws = [w.get('desc') for w in (rec.get('witnesses') or [])]
+    ws = [d for d in ws if isinstance(d, dict) and d.get('wl') == 'history' and 'ops' in d]
+    if not ws:
+        return run(ctx)
+    CTX = ctx
+    install()
+    try:
+        for d in ws:
+            ctx.case(d)
+            run_history(ctx, d)
+    finally:
+        detach_all()
